@@ -48,7 +48,6 @@ ASSUMPTIONS = ['floating point rounding is outside the model: all matrix entries
                'Flattening by one formula (W_dom^-1 M^H W_ran, vector multiple by cv/W); the code '
                'returns the bare operator / a scalar multiple / a vector multiple depending on the '
                'weighting class: same action, compared through the matrices',
-               'near-equal weights (np.isclose fudge in PointwiseInnerAdjoint) are not generated',
                'the oracle demands the REAL-PART identity (which determines A* uniquely); for a '
                'complex-linear A between complex spaces this is equivalent to the full complex '
                'identity, for an A that is only real-linear (trees through RealPart/ImagPart/'
@@ -175,9 +174,14 @@ _GRAM = {}
 def gram(S):
     """diagonal of the real Gram matrix of S from its own inner product (exact), after
     checking that the off-diagonal part vanishes."""
-    key = repr(S)
-    if key in _GRAM:
-        return _GRAM[key]
+    # keyed by the space itself (== / hash compare the weighting exactly); repr() rounds the
+    # weights and would identify c with c(1+1e-6)
+    key = S
+    try:
+        if key in _GRAM:
+            return _GRAM[key]
+    except TypeError:
+        key = None
     n = rdim(S)
     bs = [from_flat(S, basis_vec(S, a)) for a in range(n)]
     G = np.zeros((n, n))
@@ -188,7 +192,8 @@ def gram(S):
     if np.any(off != 0):
         raise ValueError('Gram matrix of {!r} is not diagonal'.format(S))
     d = [core.frac(G[a, a]) for a in range(n)]
-    _GRAM[key] = d
+    if key is not None:
+        _GRAM[key] = d
     return d
 
 
@@ -267,9 +272,10 @@ def oracle(A, approx=False):
         except OpFail as e:
             problems.append(('inplace-raises', str(e)))
             continue
+        mx_ = max([0.0] + [abs(float(v)) for c_ in M_ for v in c_])
         dif = [(a, b) for a in range(len(M_)) for b in range(len(M_[a])) if Mi[a][b] != M_[a][b]
                and abs(float(Mi[a][b]) - float(M_[a][b])) > (1e-9 if approx else 1e-11) * max(
-                   1.0, abs(float(M_[a][b])))]
+                   abs(float(Mi[a][b])), abs(float(M_[a][b]))) + (1e-9 * mx_ if approx else 0.0)]
         if dif:
             a, b = dif[0]
             problems.append(('identity-inplace',
@@ -278,18 +284,28 @@ def oracle(A, approx=False):
                              'evaluation'.format(nm=nm, a=a, b=b, v=_fstr(Mi[a][b]),
                                                  w=_fstr(M_[a][b]), n=len(dif))))
     nd, nr = len(Gd), len(Gr)
-    scale = max([1.0] + [abs(float(v)) for c in MA for v in c] +
-                [abs(float(v)) for c in MB for v in c]) * max(
-                    [1.0] + [float(g) for g in Gd + Gr])
-    tol = 1e-9 * scale if approx else 0
+    # RELATIVE tolerances: weights, cell volumes and scalars of every magnitude (1e-12 ... 1e12)
+    # must be compared on their own scale.  Exact stream: entries are dyadic, a difference is
+    # tolerated (and counted as `inexact`) only up to 1e-11 of the entry itself.  Approximate
+    # stream (FFT / wavelets): additionally 1e-9 of the largest pairing value.
+    L = [[MA[a][b] * Gr[b] for b in range(nr)] for a in range(nd)]
+    Rm = [[Gd[a] * MB[b][a] for b in range(nr)] for a in range(nd)]
+    maxabs = max([0.0] + [abs(float(v)) for row in L for v in row] +
+                 [abs(float(v)) for row in Rm for v in row])
+    scale = maxabs if maxabs > 0 else 1.0
+    floor = 1e-9 * maxabs if approx else 0.0
+
+    def close(u, v, rel=1e-11):
+        fu, fv = float(u), float(v)
+        return abs(fu - fv) <= rel * max(abs(fu), abs(fv)) + floor
+    tol = floor
     bad = []
     inexact = 0
     for a in range(nd):
         for b in range(nr):
-            lhs = MA[a][b] * Gr[b]
-            rhs = Gd[a] * MB[b][a]
+            lhs, rhs = L[a][b], Rm[a][b]
             if lhs != rhs:
-                if abs(float(lhs) - float(rhs)) <= (tol if approx else 1e-11 * scale):
+                if close(lhs, rhs, 1e-9 if approx else 1e-11):
                     inexact += 1
                     continue
                 bad.append((a, b, lhs, rhs))
@@ -305,23 +321,24 @@ def oracle(A, approx=False):
         kind = 'identity'
         FA = np.array([[float(v) for v in col] for col in MA]).T if nd else np.zeros((nr, 0))
         FB = np.array([[float(v) for v in col] for col in MB]).T if nr else np.zeros((nd, 0))
-        eps = 1e-9 * scale
         if FA.shape == (nr, nd) and FB.shape == (nd, nr):
             BA = FB.dot(FA)
             c0 = BA[0, 0] if nd else 0.0
             AB = FA.dot(FB)
-            if (nd and np.all(np.abs(BA - np.eye(nd)) <= eps)) or \
-                    (nr and np.all(np.abs(AB - np.eye(nr)) <= eps)):
+            mA = max(1e-300, float(np.max(np.abs(FA))) if FA.size else 0.0)
+            if (nd and np.all(np.abs(BA - np.eye(nd)) <= 1e-9)) or \
+                    (nr and np.all(np.abs(AB - np.eye(nr)) <= 1e-9)):
                 # left or right inverse (the transforms need not be square)
                 kind = 'identity-adjoint-is-inverse'
-            elif nd and c0 != 0 and np.all(np.abs(BA - c0 * np.eye(nd)) <= eps * max(1, abs(c0))):
+            elif nd and c0 != 0 and np.all(np.abs(BA - c0 * np.eye(nd)) <= 1e-9 * abs(c0)):
                 kind = 'identity-adjoint-is-scaled-inverse'
-            elif np.all(np.abs(FB - FA.T) <= eps):
+            elif np.all(np.abs(FB - FA.T) <= 1e-9 * mA):
                 kind = 'identity-adjoint-is-plain-transpose'
         if kind == 'identity' and len(bad) > 1 and float(rhs) != 0:
             c = float(lhs) / float(rhs)
-            uni = all(abs(float(MA[i][j] * Gr[j]) - c * float(Gd[i] * MB[j][i])) <=
-                      1e-9 * scale for i in range(nd) for j in range(nr))
+            uni = all(abs(float(L[i][j]) - c * float(Rm[i][j])) <=
+                      1e-9 * max(abs(float(L[i][j])), abs(c * float(Rm[i][j]))) + floor
+                      for i in range(nd) for j in range(nr))
             if uni:
                 kind = 'identity-common-factor'
         problems.append((kind,
@@ -338,8 +355,10 @@ def oracle(A, approx=False):
                 for j in range(len(c0) // 2):
                     d1 = c1[2 * j] + c0[2 * j + 1]
                     d2 = c1[2 * j + 1] - c0[2 * j]
-                    if (d1 != 0 or d2 != 0) and max(abs(float(d1)), abs(float(d2))) > max(
-                            tol, 1e-11 * scale):
+                    mag = max(abs(float(c0[2 * j])), abs(float(c0[2 * j + 1])),
+                              abs(float(c1[2 * j])), abs(float(c1[2 * j + 1])))
+                    if (d1 != 0 or d2 != 0) and max(abs(float(d1)), abs(float(d2))) > \
+                            1e-9 * mag + floor:
                         ok = False
             if not ok:
                 # the real-part identity determines A* uniquely; a non complex-linear A (e.g.
@@ -355,8 +374,10 @@ def oracle(A, approx=False):
                 C.domain, C.range, dom, ran))
         MC = guarded(lambda: matrix_of(C, dom, ran, exact), 'A.adjoint.adjoint(x)')
         info['C'] = MC
+        mxA = max([0.0] + [abs(float(v)) for c_ in MA for v in c_])
         diff = [(a, b) for a in range(nd) for b in range(nr) if MC[a][b] != MA[a][b] and
-                abs(float(MC[a][b]) - float(MA[a][b])) > max(tol, 1e-11 * scale)]
+                abs(float(MC[a][b]) - float(MA[a][b])) > (1e-9 if approx else 1e-11) * max(
+                    abs(float(MC[a][b])), abs(float(MA[a][b]))) + (1e-9 * mxA if approx else 0.0)]
         if diff:
             a, b = diff[0]
             problems.append(('adjadj', 'A.adjoint.adjoint differs from A: entry ({},{}) is {} '
@@ -559,6 +580,10 @@ def zoo_cases(ctx, rng=None):
         yield c
     for c in minimal_cases(ctx, rng, mk):
         yield c
+    for c in gate_cases(ctx, rng, mk):
+        yield c
+    for c in magnitude_cases(ctx, rng, mk):
+        yield c
 
 
 # strata of the generator that every run (both tiers) must hit
@@ -566,7 +591,11 @@ EXPECTED_STRATA = ['diffop/min-axis-2', 'diffop/min-axis-3', 'minimal/matrix-1x1
                    'minimal/matrix-1xn', 'minimal/matrix-nx1', 'minimal/pspace-1-component',
                    'minimal/resize-axis-1', 'minimal/resize-axis-2',
                    'minimal/fourier-axis-2', 'minimal/wavelet-axis-2', 'minimal/sampling-1-point',
-                   'minimal/space-1-entry']
+                   'minimal/space-1-entry', 'gate/fourier-exponent', 'gate/is-linear',
+                   'magnitude/array-span', 'magnitude/scalar'] + \
+    ['gate/wavelet-family-' + f for f in ('haar', 'db', 'sym', 'coif', 'bior', 'rbio', 'dmey')] + \
+    ['magnitude/weight-' + m for m in ('1e-12', '1e-6', '1', '1e6', '1e12')] + \
+    ['magnitude/pair-' + q for q in ('c,c', 'c,2c', 'c,c(1+1e-6)', 'c,c(1+1e-3)')]
 
 
 def minimal_cases(ctx, rng, mk):
@@ -683,6 +712,211 @@ def minimal_cases(ctx, rng, mk):
         yield mk('WaveletTransformInverse', 'minimal n=2 wavelet=haar pad={}'.format(pad),
                  lambda pad=pad: tr.WaveletTransform(w2, 'haar', nlevels=1, pad_mode=pad).inverse,
                  approx=True)
+
+
+def gate_cases(ctx, rng, mk):
+    """every option value that decides whether `.adjoint` is EXPOSED: either the documented
+    error is raised (table EXPECT_NOADJ) or the returned operator passes the full identity"""
+    odl = odl_()
+    import odl.trafos as tr
+    import pywt
+    w8 = odl.uniform_discr(0, 8, 8)
+    w16 = odl.uniform_discr(0, 4, 16)        # cell volume 1/4
+    fams = []
+    for fam in ('haar', 'db', 'sym', 'coif', 'bior', 'rbio', 'dmey'):
+        names = pywt.wavelist(fam)
+        fams.append((fam, names[0]))
+        if len(names) > 1:
+            fams.append((fam, names[1]))
+    for fam, wav in fams:
+        W = pywt.Wavelet(wav)
+        ctx.hit('gate/wavelet-family-' + fam)
+        if W.dec_len > 16:
+            continue          # filter longer than the test spaces (dmey): family noted only
+        for tag, S in (('discr8', w8), ('discr16/quarter', w16)):
+            gate = 'orthogonal' if W.orthogonal else 'nonorthogonal'
+            yield mk('WaveletTransform', 'gate dom={} wavelet={} family={} {} pad=pywt_periodic'.format(
+                tag, wav, fam, gate),
+                lambda S=S, wav=wav: tr.WaveletTransform(S, wav, nlevels=1, pad_mode='pywt_periodic'),
+                approx=True)
+            yield mk('WaveletTransformInverse', 'gate ran={} wavelet={} family={} {} pad=pywt_periodic'.format(
+                tag, wav, fam, gate),
+                lambda S=S, wav=wav: tr.WaveletTransform(S, wav, nlevels=1,
+                                                         pad_mode='pywt_periodic').inverse,
+                approx=True)
+    # exponent gate of the Fourier transforms: adjoint only for (2, 2)
+    ctx.hit('gate/fourier-exponent')
+    d4 = odl.uniform_discr(-1, 1, 4, dtype='complex128', exponent=1.0)
+    yield mk('FourierTransform', 'gate exponent=1', lambda: tr.FourierTransform(d4), approx=True)
+    yield mk('DiscreteFourierTransform', 'gate exponent=1',
+             lambda: tr.DiscreteFourierTransform(odl.uniform_discr(0, 4, 4, dtype='complex128',
+                                                                   exponent=1.0)), approx=True)
+    # is_linear gates: affine / non-linear operators expose no adjoint
+    ctx.hit('gate/is-linear')
+    X = odl.uniform_discr(0, 2, 4)
+    r3 = odl.rn(3)
+    yield mk('PartialDerivative', 'gate pad_const=1 (affine)',
+             lambda: odl.PartialDerivative(X, 0, pad_mode='constant', pad_const=1))
+    yield mk('Gradient', 'gate pad_const=1 (affine)',
+             lambda: odl.Gradient(X, pad_mode='constant', pad_const=1))
+    yield mk('Divergence', 'gate pad_const=1 (affine)',
+             lambda: odl.Divergence(range=X, pad_mode='constant', pad_const=1))
+    yield mk('Laplacian', 'gate pad_const=1 (affine)',
+             lambda: odl.Laplacian(X, pad_mode='constant', pad_const=1))
+    yield mk('ResizingOperator', 'gate pad_const=1 (affine)',
+             lambda: odl.ResizingOperator(X, ran_shp=(6,), pad_mode='constant', pad_const=1))
+    yield mk('ConstantOperator', 'gate nonzero constant', lambda: odl.ConstantOperator(r3.one()))
+    yield mk('PowerOperator', 'gate exponent=2', lambda: odl.PowerOperator(r3, 2))
+    yield mk('OperatorVectorSum', 'gate affine',
+             lambda: odl.operator.operator.OperatorVectorSum(odl.IdentityOperator(r3), r3.one()))
+    yield mk('UfuncOperator', 'gate sin', lambda: odl.ufunc_ops.sin(r3))
+    yield mk('PointwiseNorm', 'gate nonlinear', lambda: odl.PointwiseNorm(odl.ProductSpace(r3, 2)))
+    yield mk('ComplexModulus', 'gate nonlinear', lambda: odl.ComplexModulus(odl.cn(3)))
+
+
+# magnitudes (powers of two near 1e-12, 1e-6, 1, 1e6, 1e12) and domain/range pairs
+MAGS = [('1e-12', 2.0 ** -40), ('1e-6', 2.0 ** -20), ('1', 1.0), ('1e6', 2.0 ** 20),
+        ('1e12', 2.0 ** 40)]
+PAIRS = [('c,c', 1.0), ('c,2c', 2.0), ('c,c(1+1e-6)', 1.0 + 2.0 ** -20),
+         ('c,c(1+1e-3)', 1.0 + 2.0 ** -10)]
+
+
+def magnitude_cases(ctx, rng, mk):
+    """wherever weights / cell volumes / scalings enter an adjoint: every magnitude and every
+    kind of domain/range pair (equal, factor 2, nearly equal), array weights spanning many
+    orders of magnitude, tiny and huge scalar multiples"""
+    odl = odl_()
+    import odl.trafos as tr
+    from odl.operator import operator as opm
+    from odl.operator.tensor_ops import PointwiseInnerAdjoint
+    for mn, c in MAGS:
+        ctx.hit('magnitude/weight-' + mn)
+        for pn, f in PAIRS:
+            ctx.hit('magnitude/pair-' + pn)
+            c2 = c * f
+            tag = 'mag={} pair={}'.format(mn, pn)
+            M = rand_mat(rng, 2, 3)
+            dom, ran = odl.rn(3, weighting=c), odl.rn(2, weighting=c2)
+            yield mk('MatrixOperator', 'magnitude ' + tag,
+                     lambda M=M, dom=dom, ran=ran: odl.MatrixOperator(M, domain=dom, range=ran),
+                     ('matrix', M, dom, ran))
+            X = odl.rn(2)
+            V = odl.ProductSpace(X, 2, weighting=c)
+            G = rand_el(rng, V, nz=True)
+            yield mk('PointwiseInner', 'magnitude pspace-w=c op-w=c2 ' + tag,
+                     lambda V=V, G=G, c2=c2: odl.PointwiseInner(V, G, weighting=c2),
+                     ('pwinner', V, X, G, c2))
+            yield mk('PointwiseInnerAdjoint', 'magnitude pspace-w=c op-w=c2 ' + tag,
+                     lambda V=V, G=G, c2=c2, X=X: PointwiseInnerAdjoint(X, G, vfspace=V, weighting=c2),
+                     ('pwinneradj', V, X, G, c2))
+            Va = odl.ProductSpace(X, 2, weighting=[c, c2])
+            Ga = rand_el(rng, Va, nz=True)
+            yield mk('PointwiseInner', 'magnitude pspace-w=[c,c2] op-w=[c2,c] ' + tag,
+                     lambda Va=Va, Ga=Ga, c=c, c2=c2: odl.PointwiseInner(Va, Ga, weighting=[c2, c]),
+                     ('pwinner', Va, X, Ga, [c2, c]))
+            P = odl.ProductSpace(odl.rn(2), odl.rn(3), weighting=[c, c2])
+            yield mk('ComponentProjection', 'magnitude index=int ' + tag,
+                     lambda P=P: odl.ComponentProjection(P, 1), ('proj', P, 1))
+            yield mk('ComponentProjection', 'magnitude index=list ' + tag,
+                     lambda P=P: odl.ComponentProjection(P, [1, 0]), ('proj', P, [1, 0]))
+            yield mk('ComponentProjectionAdjoint', 'magnitude index=int ' + tag,
+                     lambda P=P: odl.ComponentProjectionAdjoint(P, 0), ('projadj', P, 0))
+            D = odl.uniform_discr(0, 4 * c, 4)           # cell volume c
+            D2 = odl.uniform_discr(0, 4 * c, 4, weighting=c2)
+            for S_, sn in ((D, 'cell=c'), (D2, 'cell=c weighting=c2'),
+                           (odl.rn(4, weighting=c2), 'rn w=c2')):
+                if sn == 'cell=c' and pn != 'c,c':
+                    continue
+                for variant in ('point_eval', 'integrate'):
+                    yield mk('SamplingOperator', 'magnitude {} variant={} {}'.format(sn, variant, tag),
+                             lambda S_=S_, variant=variant: odl.SamplingOperator(S_, [1, 3, 1], variant),
+                             ('sampling', S_, [1, 3, 1], variant))
+                yield mk('WeightedSumSamplingOperator', 'magnitude {} variant=dirac {}'.format(sn, tag),
+                         lambda S_=S_: odl.WeightedSumSamplingOperator(S_, [1, 3, 1], 'dirac'),
+                         ('wsum', S_, [1, 3, 1], 'dirac'))
+                yield mk('FlatteningOperator', 'magnitude {} {}'.format(sn, tag),
+                         lambda S_=S_: odl.FlatteningOperator(S_), ('flatten', S_, 'C'))
+        # cell volume / cell side c alone: differential, resizing, wavelet, Fourier operators
+        D = odl.uniform_discr(0, 4 * c, 4)
+        D2d = odl.uniform_discr([0, 0], [3 * c, 4.0], (3, 4))
+        tag = 'mag=' + mn
+        for method in ('forward', 'central'):
+            for pad in ('constant', 'symmetric', 'order1'):
+                yield mk('PartialDerivative', 'magnitude cell-side {} method={} pad={}'.format(tag, method, pad),
+                         lambda D=D, method=method, pad=pad: odl.PartialDerivative(
+                             D, 0, method=method, pad_mode=pad))
+        yield mk('Gradient', 'magnitude cell-sides (c, 1) ' + tag, lambda D2d=D2d: odl.Gradient(D2d))
+        yield mk('Divergence', 'magnitude cell-sides (c, 1) ' + tag,
+                 lambda D2d=D2d: odl.Divergence(range=D2d))
+        yield mk('Laplacian', 'magnitude cell-sides (c, 1) ' + tag, lambda D2d=D2d: odl.Laplacian(D2d))
+        for mode in ('constant', 'periodic', 'order0', 'order1'):
+            yield mk('ResizingOperator', 'magnitude cell-side {} mode={}'.format(tag, mode),
+                     lambda D=D, mode=mode: odl.ResizingOperator(D, ran_shp=(7,), pad_mode=mode))
+            yield mk('ResizingOperatorAdjoint', 'magnitude cell-side {} mode={}'.format(tag, mode),
+                     lambda D=D, mode=mode: odl.ResizingOperator(D, ran_shp=(7,), pad_mode=mode).adjoint)
+        W8 = odl.uniform_discr(0, 8 * c, 8)
+        yield mk('WaveletTransform', 'magnitude cell-side {} wavelet=haar pad=pywt_periodic'.format(tag),
+                 lambda W8=W8: tr.WaveletTransform(W8, 'haar', nlevels=1, pad_mode='pywt_periodic'),
+                 approx=True)
+        yield mk('WaveletTransformInverse', 'magnitude cell-side {} wavelet=haar pad=pywt_periodic'.format(tag),
+                 lambda W8=W8: tr.WaveletTransform(W8, 'haar', nlevels=1, pad_mode='pywt_periodic').inverse,
+                 approx=True)
+        Dc = odl.uniform_discr(0, 4 * c, 4, dtype='complex128')
+        yield mk('DiscreteFourierTransform', 'magnitude cell-side ' + tag,
+                 lambda Dc=Dc: tr.DiscreteFourierTransform(Dc), approx=True)
+        yield mk('FourierTransform', 'magnitude cell-side ' + tag,
+                 lambda Dc=Dc: tr.FourierTransform(Dc), approx=True)
+        # plain weighted spaces of that magnitude
+        S = odl.cn(2, weighting=c)
+        v = rand_el(rng, S, nz=True)
+        yield mk('InnerProductOperator', 'magnitude ' + tag, lambda v=v: odl.InnerProductOperator(v),
+                 ('inner', S, v))
+        yield mk('MultiplyOperator', 'magnitude domain=field ' + tag,
+                 lambda v=v, S=S: odl.MultiplyOperator(v, domain=S.field), ('multfield', S, v))
+        yield mk('ComplexEmbedding', 'magnitude ' + tag,
+                 lambda c=c: odl.ComplexEmbedding(odl.rn(2, weighting=c), 1 + 2j),
+                 ('cembed', odl.rn(2, weighting=c), 1 + 2j))
+    # array weights spanning many orders of magnitude
+    ctx.hit('magnitude/array-span')
+    wd, wr = [2.0 ** -40, 1.0, 2.0 ** 40], [2.0 ** 20, 2.0 ** -20]
+    M = rand_mat(rng, 2, 3)
+    dom, ran = odl.rn(3, weighting=wd), odl.rn(2, weighting=wr)
+    yield mk('MatrixOperator', 'magnitude array-span', lambda: odl.MatrixOperator(M, domain=dom, range=ran),
+             ('matrix', M, dom, ran))
+    Mc = rand_mat(rng, 3, 3, True)
+    domc = odl.cn(3, weighting=wd)
+    yield mk('MatrixOperator', 'magnitude array-span complex default-range',
+             lambda: odl.MatrixOperator(Mc, domain=domc), ('matrix', Mc, domc, None))
+    Sa = odl.rn(3, weighting=wd)
+    yield mk('SamplingOperator', 'magnitude array-span', lambda: odl.SamplingOperator(Sa, [2, 0, 2]),
+             ('sampling', Sa, [2, 0, 2], 'point_eval'))
+    yield mk('FlatteningOperator', 'magnitude array-span',
+             lambda: odl.FlatteningOperator(odl.rn((1, 3), weighting=[wd])), None)
+    X = odl.rn(2)
+    Vs = odl.ProductSpace(X, 3, weighting=wd)
+    Gs = rand_el(rng, Vs, nz=True)
+    yield mk('PointwiseInner', 'magnitude array-span op-w=reversed',
+             lambda: odl.PointwiseInner(Vs, Gs, weighting=wd[::-1]), ('pwinner', Vs, X, Gs, wd[::-1]))
+    yield mk('PointwiseSum', 'magnitude array-span', lambda: odl.PointwiseSum(Vs),
+             ('pwinner', Vs, X, Vs.one(), None))
+    yield mk('ComponentProjection', 'magnitude array-span index=list',
+             lambda: odl.ComponentProjection(Vs, [2, 0]), ('proj', Vs, [2, 0]))
+    # tiny and huge scalar multiples
+    ctx.hit('magnitude/scalar')
+    c3 = odl.cn(3, weighting=2.0)
+    for sn, sc in (('1e-9', 2.0 ** -30), ('1e9', 2.0 ** 30), ('1e-9j', (2.0 ** -30) * 1j),
+                   ('1e9(1+j)', (2.0 ** 30) * (1 + 1j))):
+        Mm = rand_mat(rng, 3, 3, True)
+        A0 = odl.MatrixOperator(Mm, domain=c3, range=c3)
+        sA0 = ('matrix', Mm, c3, c3)
+        yield mk('ScalingOperator', 'magnitude scalar=' + sn,
+                 lambda sc=sc: odl.ScalingOperator(c3, sc), ('scaling', c3, sc))
+        yield mk('OperatorLeftScalarMult', 'magnitude scalar=' + sn,
+                 lambda A0=A0, sc=sc: opm.OperatorLeftScalarMult(A0, sc), ('lsc', sA0, sc))
+        yield mk('OperatorRightScalarMult', 'magnitude scalar=' + sn,
+                 lambda A0=A0, sc=sc: opm.OperatorRightScalarMult(A0, sc), ('rsc', sA0, sc))
+        yield mk('ComplexEmbedding', 'magnitude scalar=' + sn,
+                 lambda sc=sc: odl.ComplexEmbedding(odl.rn(2), sc), ('cembed', odl.rn(2), sc))
 
 
 def sclass(s):
@@ -1286,7 +1520,7 @@ class TB(object):
         self.toks = []
 
     def sp(self, S):
-        k = repr(S)
+        k = S if not is_field(S) else repr(S)   # exact equality of spaces, not repr()
         if k not in self.keys:
             g = gram(S)
             w = g[::2] if is_cplx(S) else g
@@ -1465,6 +1699,26 @@ def parse_cols(s, cplx):
     return cols
 
 
+def same_cols(ctx, model_cols, code_cols):
+    """exact equality, or - where the code divides by a non power of two (weight ratios like
+    1/(1+2**-20)) and rounds - equality up to 1e-12 of each entry (counted, general stream)"""
+    if model_cols == code_cols:
+        return True
+    if len(model_cols) != len(code_cols) or any(len(a) != len(b) for a, b in zip(model_cols, code_cols)):
+        return False
+    for ca, cb in zip(model_cols, code_cols):
+        for u, v in zip(ca, cb):
+            if u == v:
+                continue
+            if isinstance(u, tuple) or isinstance(v, tuple):
+                return False
+            fu, fv = float(u), float(v)
+            if abs(fu - fv) > 1e-12 * max(abs(fu), abs(fv)):
+                return False
+    ctx.extra['correspondence_rounded_matrices'] = ctx.extra.get('correspondence_rounded_matrices', 0) + 1
+    return True
+
+
 def compare_model(ctx, desc, A, status, info, ans):
     """entry-wise comparison of the model's matrices with those of the real code"""
     fields = dict(tk.split('=', 1) for tk in ans.split()[1:]) if ' ' in ans else {}
@@ -1474,7 +1728,7 @@ def compare_model(ctx, desc, A, status, info, ans):
         return
     dom, ran = A.domain, A.range
     if 'A' in info and 'A' in fields and not desc.get('nonlin'):
-        if parse_cols(fields['A'], is_cplx(ran)) != info['A']:
+        if not same_cols(ctx, parse_cols(fields['A'], is_cplx(ran)), info['A']):
             ctx.disagree(desc, 'matrix of A = {}'.format(_mstr(info['A'])),
                          'matrix of run t = {}'.format(fields['A'][:400]))
             return
@@ -1486,7 +1740,7 @@ def compare_model(ctx, desc, A, status, info, ans):
         ctx.disagree(desc, status, 'model: adjoint exists')
         return
     if 'B' in info:
-        if parse_cols(fields['B'], is_cplx(dom)) != info['B']:
+        if not same_cols(ctx, parse_cols(fields['B'], is_cplx(dom)), info['B']):
             ctx.disagree(desc, 'matrix of A.adjoint = {}'.format(_mstr(info['B'])),
                          'matrix of run (adj t) = {}'.format(fields['B'][:400]))
             return
@@ -1495,7 +1749,7 @@ def compare_model(ctx, desc, A, status, info, ans):
                      'model adjoint spaces {}'.format((fields.get('ad'), fields.get('ar'))))
         return
     if 'C' in info and fields.get('AA') not in (None, 'noadj'):
-        if parse_cols(fields['AA'], is_cplx(ran)) != info['C']:
+        if not same_cols(ctx, parse_cols(fields['AA'], is_cplx(ran)), info['C']):
             ctx.disagree(desc, 'matrix of A.adjoint.adjoint = {}'.format(_mstr(info['C'])),
                          'matrix of run (adj (adj t)) = {}'.format(fields['AA'][:400]))
     elif ('C' in info) != (fields.get('AA') not in (None, 'noadj')):
@@ -1797,6 +2051,14 @@ EXPECT_NOADJ = {
     r'^class=ZeroFunctional opts=space=rT1$': 'noadjoint:OpNotImplementedError',
     r'^class=MatrixOperator opts=domw=none shape=2x3 dtype=complex dom=real$': 'noadjoint:ValueError',
     r'^class=\w+ opts=operand=rr/T nonlinear-operand#\S+$': 'noadjoint:OpNotImplementedError',
+    r'^class=WaveletTransform(Inverse)? opts=gate \S+ wavelet=\S+ family=(bior|rbio) nonorthogonal pad=pywt_periodic$':
+        'noadjoint:OpNotImplementedError',
+    r'^class=(FourierTransform|DiscreteFourierTransform) opts=gate exponent=1$': 'noadjoint:NotImplementedError',
+    r'^class=(PartialDerivative|Gradient|Divergence|Laplacian) opts=gate pad_const=1 \(affine\)$': 'noadjoint:ValueError',
+    r'^class=ResizingOperator opts=gate pad_const=1 \(affine\)$': 'noadjoint:NotImplementedError',
+    r'^class=(PowerOperator opts=gate exponent=2|OperatorVectorSum opts=gate affine|UfuncOperator opts=gate sin|PointwiseNorm opts=gate nonlinear|ComplexModulus opts=gate nonlinear)$':
+        'noadjoint:OpNotImplementedError',
+    r'^class=ConstantOperator opts=gate nonzero constant$': 'noadjoint:None',
 }
 
 
